@@ -468,13 +468,28 @@ impl PredicatePushdown {
             }
 
             LogicalPlan::Limit(node) => {
-                // Push through limit
-                let input = self.pushdown(&node.input, predicates)?;
-                Ok(LogicalPlan::Limit(crate::planner::LimitNode {
+                // LIMIT/OFFSET is a barrier. A predicate above it filters the
+                // rows the limit KEPT; evaluated below, it changes WHICH rows
+                // are kept (`SELECT * FROM (.. ORDER BY k LIMIT 3) WHERE p`
+                // would return the first 3 rows satisfying p instead of those
+                // of the first 3 rows that satisfy p). Keep the predicates
+                // above and continue with none below.
+                let input = self.pushdown(&node.input, vec![])?;
+                let limit = LogicalPlan::Limit(crate::planner::LimitNode {
                     input: Arc::new(input),
                     skip: node.skip,
                     fetch: node.fetch,
-                }))
+                });
+
+                if predicates.is_empty() {
+                    Ok(limit)
+                } else {
+                    let combined = self.combine_predicates(predicates);
+                    Ok(LogicalPlan::Filter(FilterNode {
+                        input: Arc::new(limit),
+                        predicate: combined,
+                    }))
+                }
             }
 
             LogicalPlan::Distinct(node) => {
